@@ -72,7 +72,9 @@ claim("C18",
       "table agreement between writer and reader of each encoding: (URL key, field) sets of ToURLQuery/FromURLQuery, (message field, struct field) tables and oneof-presence discrimination of the protobuf decoders, separator sequences of String/FromString, unmodified line hand-off in the tuple file parser, JSON name uniqueness",
       "Decides that both directions of each relationship encoding refer to the same keys, fields and separators and that the subject kind is decided by presence; does not decide round-trip equality over all strings or escaping. Right level: writer/reader table agreement is a static comparison of two functions.")
 
-na("C10", "semantic equivalence between the parser's output and TypeScript's grammar over all programs: precedence/associativity is not a code shape every correct parser shares; no sound structural necessary condition found (and the property is known to be violated: a||b&&c parses as (a||b)&&c), so a static green light would be misleading")
+claim("C10",
+      "branch-separation analysis over the expression parser's tests of the binary-operator token (is there any control or precedence-table decision that tells '&&' from '||' apart, outside the token-to-label mapping); argument/dominance check of the calls that parse the operand of '!' and a parenthesised group (closing token ')'); dominance of the flattening pass's merge by an equality test of the two operators",
+      "Decides three structural necessary conditions of 'boolean structure follows TypeScript' (the tree shape depends on the operator read; '!' takes one operand; parentheses delimit and flattening merges only equal operators). It does not decide which spellings the parser accepts, which of the two operators binds tighter, or equality of truth tables: those quantify over all programs and would need the parser to be executed or modelled. Right level: the one clause that is visible in the shape of the code on every path is decided; it is thin, and it is the clause on which the unrepaired tree was wrong (a || b && c was read as (a || b) && c).")
 
 # ---- rules added after the first version of each check (DESIGN.md §9.5 says which seeded change motivated which)
 extend("C01", "who-may-install check for visited sets (only below a single check); write-after-hand-over check on objects given to running sub-checks; CFG search for loop iterations that add no sub-check outside the enumerated skip edges; the C07 paging-agreement rules run on the listings the engine evaluates over; read-only check of the shared namespace configuration (stores and in-place reorders through aliases)",
